@@ -440,3 +440,4 @@ def run(ctx):
     _run_rules(ctx)
     from .. import boundaries
     boundaries.check(ctx, 'C09.RB', 'C09')
+    boundaries.check_amounts(ctx, 'C09.RA', 'C09')
